@@ -103,6 +103,11 @@ def pyx_to_py(text: str, fname: str = '<pyx>') -> Tuple[str, PyxInfo]:
             if m.group('names'):
                 info.cimports += [x.strip() for x in m.group('names').split(',')]
             out[i] = (' ' * ind) + 'pass  # ' + line.strip() if ind else '# ' + line.strip()
+            mp_ = re.match(r"^\s*from\s+(pyspike[\w.]*)\s+cimport\s+([\w, ]+?)\s*(#.*)?$", code)
+            if mp_ and not ind:
+                # a C-level import from another module of the package: in the Python view an ordinary import, so that
+                # helpers shared between .pyx files resolve like helpers shared between .py files
+                out[i] = f"from {mp_.group(1)} import {mp_.group(2).strip()}  # cimport"
             i += 1
             continue
         mf = RE_CDEF_FUNC.match(code)
@@ -167,6 +172,9 @@ def pyx_to_py(text: str, fname: str = '<pyx>') -> Tuple[str, PyxInfo]:
             raise FrontEndError(f"{fname}:{i+1}: Cython construct outside the supported dialect: {line.strip()}")
         i += 1
     return '\n'.join(out), info
+
+
+C_MATH_NAMES = {'fmin', 'fmax', 'fabs', 'sqrt', 'floor', 'ceil', 'xrange'}
 
 
 def _digest_of_normalizer() -> str:
@@ -357,6 +365,8 @@ class Repo:
                         bx = bindings[mod].get(x)
                         if bx is not None and not bx.startswith('def ') and bx == bindings[m.name].get(x):
                             continue
+                        if bx is None and bindings[m.name].get(x) is None and x in C_MATH_NAMES:
+                            continue            # libc functions that .pyx files cimport (dropped by the front end)
                         if bx is not None and bx.startswith(('import ', 'from ')) and x not in names_in_m:
                             needed.append((x, mod))         # the importing module does not know the name at all:
                             continue                        # it gets the helper's own import (added below)
